@@ -56,14 +56,16 @@ def build_conversions(index):
     fn = index.func(UC, "UnitConversions.set_nutrition_requirements")
     params = [a.arg for a in fn.args.args][1:]
     expect = ["kcals_daily", "fat_daily", "protein_daily", "include_fat", "include_protein", "population"]
-    if params != expect:
+    if len(params) != len(expect):
         raise AnalysisError(f"set_nutrition_requirements signature changed: {params}")
     vals = [sym("kcals_daily"), sym("fat_daily"), sym("protein_daily"), Path(("flag", "include_fat")),
             Path(("flag", "include_protein")), sym("population")]
+    from .core import bind_named
+    vals, kw_ = bind_named(fn, list(zip(expect, vals)))
     # `not include_fat` forks on the flag; fix both true (values irrelevant to the numeric obligations)
     it.decisions = {"flag.include_fat": True, "flag.include_protein": True}
     try:
-        it.call_function(fn, vals, {}, conv)
+        it.call_function(fn, vals, kw_, conv)
     except (Unsupported, Fork, MonthSplit) as e:
         raise AnalysisError(f"set_nutrition_requirements outside the analysed fragment: {e!r}")
     return conv
@@ -189,7 +191,9 @@ def conv_rules(index, conv, tabs, rep):
             to = [keys[n][j % len(keys[n])] for n in NUTR]
             it, selfobj = new_interp(index, conv)
             try:
-                res = it.call_function(fn, [PList(fr)] + to, {}, selfobj)
+                from .core import bind_named
+                a_, k_ = bind_named(fn, [("from_units", PList(fr)), ("to_units_kcals", to[0]), ("to_units_fat", to[1]), ("to_units_protein", to[2])])
+                res = it.call_function(fn, a_, k_, selfobj)
             except (Unsupported, Fork, MonthSplit, Abort) as e:
                 raise AnalysisError(f"get_conversion outside the analysed fragment: {e!r}")
             evals += 1
@@ -320,7 +324,9 @@ def form_rules(index, conv, tabs, rep):
                 "units": PList(units), "kcals_units": units[0], "fat_units": units[1], "protein_units": units[2],
                 "kcals": lanes[0], "fat": lanes[1], "protein": lanes[2]})
             try:
-                res = it.call_function(fn, list(target), {}, selfobj)
+                from .core import bind_named
+                a_, k_ = bind_named(fn, list(zip(("to_units_kcals", "to_units_fat", "to_units_protein"), target)))
+                res = it.call_function(fn, a_, k_, selfobj)
             except Abort as e:
                 rep.violation(rule, f"in_units{target}:{s.strip() or 'total'}", f"in_units rejects a supported unit triple ({e.why})", loc=loc(UC, fn))
                 continue
